@@ -126,9 +126,11 @@ source_get_chunk(Source *source, void *buf, size_t n)
         return -EINVAL;
     }
 
+    unsigned char *data = buf;
     size_t rest = n;
     while (rest > 0) {
-        const ssize_t get = once_source_get_chunk(source, buf, rest);
+        const ssize_t get =
+            once_source_get_chunk(source, data + (n - rest), rest);
         if (get == -EINTR || get == -EAGAIN) {
             continue;
         } else if (get < 0) {
